@@ -151,3 +151,6 @@ impl Compiler {
 #[verifier::external_body]
 pub fn rt_guard() -> !
 { panic!() }
+
+// core::Alternative projected on the expression of the alternative
+pub struct Alternative { pub expr: Expr }
